@@ -77,7 +77,7 @@ func c11Decs[T comparable](c c11Codec[T], ts []T) []int {
 
 // c11Tree decodes the prefix code into the `any` value handed to Union/Flatten.
 func c11Tree[T comparable](c c11Codec[T], r *R, depth int) any {
-	if depth > 64 {
+	if depth > 100000 {
 		r.bad = true
 		return nil
 	}
@@ -432,6 +432,32 @@ func genC11(g *Gen) {
 		}
 	}
 
+	// --- exhaustive at the other two element types: every slice over {0,1,2} up to length 3, every pair
+	for ty := 1; ty <= 2; ty++ {
+		var shorts [][]int
+		slicesOver(a3, 3, func(s []int) { shorts = append(shorts, cloneInts(s)) })
+		for _, s1 := range shorts {
+			nt := len(s1) >= 2 && hasDup(s1)
+			g.Count("exhaustive at " + c11TyNames[ty])
+			for _, fn := range []int{1, 9, 10} {
+				emit("exhaustive", nt, (&W{}).Int(fn).Int(ty).Ints(s1))
+			}
+			emit("exhaustive", len(s1) >= 2, (&W{}).Int(2).Int(ty).Int(1).Ints(s1))
+			emit("exhaustive", len(s1) >= 2, (&W{}).Int(3).Int(ty).Raw((&W{}).Int(2).Int(2).Int(1).Ints(s1).Int(2).Int(1).Int(1).Ints(s1).Out()))
+			for _, s2 := range shorts {
+				nt2 := len(s1) >= 2 && (hasDup(s1) || len(s2) > 0)
+				emit("exhaustive", nt2, (&W{}).Int(6).Int(ty).Ints(s1).Ints(s2))
+				emit("exhaustive", nt2, (&W{}).Int(8).Int(ty).Ints(s1).Ints(s2))
+				emit("exhaustive", nt2, (&W{}).Int(7).Int(ty).Int(1).Ints(s1).Ints(s2))
+				emit("exhaustive", nt2, (&W{}).Int(4).Int(ty).Intss([][]int{s1, s2}))
+				emit("exhaustive", nt2, (&W{}).Int(5).Int(ty).Int(1).Intss([][]int{s1, s2}))
+			}
+		}
+	}
+
+	c11Large(g, emit)
+	c11Extreme(g, emit)
+
 	// --- seeded random: longer slices, wider alphabets, the three element types
 	var randTree func(d int) ([]int64, int, bool)
 	randTree = func(d int) ([]int64, int, bool) {
@@ -511,7 +537,181 @@ func genC11(g *Gen) {
 	}
 }
 
+// c11Large: many arguments, many listed values, long slices with many distinct values, deep and
+// wide nestings (both tiers).
+func c11Large(g *Gen, emit func(string, bool, *W)) {
+	const st = "large"
+	base := []int{1, 2, 3, 2, 4, 1}
+	for _, k := range []int{5, 33, 64, 65, 70, 130, 257, 300} {
+		g.Count(fmt.Sprintf("large: intersection of %d slices", k))
+		mk := func(pos int, odd []int) [][]int {
+			ps := make([][]int, k)
+			ps[0] = base
+			for i := 1; i < k; i++ {
+				ps[i] = []int{4, 3, 2, 1, 9 + i}
+			}
+			if pos > 0 {
+				ps[pos] = odd
+			}
+			return ps
+		}
+		poss := map[int]bool{0: true, 1: true, k / 2: true, k - 2: true, k - 1: true}
+		if k > 64 {
+			poss[63], poss[64] = true, true
+		}
+		if k > 256 {
+			poss[255], poss[256] = true, true
+		}
+		var order []int
+		for pos := range poss {
+			order = append(order, pos)
+		}
+		sort.Ints(order)
+		for _, pos := range order {
+			if pos < 0 || pos >= k {
+				continue
+			}
+			// the argument at [pos] lacks the value 3 / holds only even values / is empty (pos 0: none does)
+			for _, odd := range [][]int{{1, 2, 4}, {4, 2}, {}} {
+				ps := mk(pos, odd)
+				emit(st, true, (&W{}).Int(4).Int(0).Intss(ps))
+				emit(st, true, (&W{}).Int(5).Int(0).Int(1).Intss(ps))
+				emit(st, true, (&W{}).Int(5).Int(0).Int(3).Intss(ps))
+				if pos == 0 {
+					break
+				}
+			}
+			emit(st, true, (&W{}).Int(4).Int(1+pos%2).Intss(mk(pos, []int{3, 1})))
+		}
+		// k copies of [1] followed by an empty slice
+		ones := make([][]int, k+1)
+		for i := 0; i < k; i++ {
+			ones[i] = []int{1}
+		}
+		ones[k] = []int{}
+		emit(st, true, (&W{}).Int(4).Int(0).Intss(ones))
+		emit(st, true, (&W{}).Int(5).Int(0).Int(2).Intss(ones))
+		// Without with k listed values
+		vals := make([]int, k) // only the LAST listed value occurs in the slice more than marginally
+		for i := range vals {
+			vals[i] = 2 * i
+		}
+		vals[k-1] = 1
+		sl := make([]int, 3*k)
+		for i := range sl {
+			sl[i] = (i * 7) % (2*k + 5)
+		}
+		emit(st, true, (&W{}).Int(8).Int(0).Ints(sl).Ints(vals))
+		emit(st, true, (&W{}).Int(6).Int(0).Ints(sl).Ints(vals))
+		emit(st, true, (&W{}).Int(7).Int(0).Int(3).Ints(sl).Ints(vals))
+	}
+	for _, n := range []int{100, 130, 257, 500, 1023, 2000} {
+		g.Count(fmt.Sprintf("large: slice of %d", n))
+		few := make([]int, n) // few distinct values
+		for i := range few {
+			few[i] = g.Rng.Intn(9)
+		}
+		twice := make([]int, n) // n/2 distinct values, each twice
+		for i, v := range g.Rng.Perm(n) {
+			twice[i] = v / 2
+		}
+		all := g.Rng.Perm(n) // n distinct values
+		other := make([]int, 60)
+		for i := range other {
+			other[i] = g.Rng.Intn(n)
+		}
+		tys := []int{0}
+		if n == 100 {
+			tys = []int{0, 1, 2}
+		}
+		for _, ty := range tys {
+			for _, s := range [][]int{few, twice, all} {
+				for _, fn := range []int{1, 9, 10} {
+					emit(st, true, (&W{}).Int(fn).Int(ty).Ints(s))
+				}
+				for k := 0; k <= 3; k++ {
+					emit(st, true, (&W{}).Int(2).Int(ty).Int(k).Ints(s))
+				}
+				emit(st, true, (&W{}).Int(6).Int(ty).Ints(s).Ints(other))
+				emit(st, true, (&W{}).Int(8).Int(ty).Ints(s).Ints(other))
+				emit(st, true, (&W{}).Int(7).Int(ty).Int(3).Ints(s).Ints(other))
+			}
+			emit(st, true, (&W{}).Int(4).Int(ty).Intss([][]int{twice, all, few, other}))
+			emit(st, true, (&W{}).Int(4).Int(ty).Intss([][]int{twice, all, twice}))
+			emit(st, true, (&W{}).Int(5).Int(ty).Int(3).Intss([][]int{all, twice, other}))
+		}
+	}
+	// Union: a chain of []any of the given depth around a leaf, and a []any with many children
+	for _, depth := range []int{40, 200, 1000} {
+		for _, leaf := range [][]int64{{0, 5}, {1, 4, 1, 2, 1, 3}, {3}, {2, 0}, {2, 2, 0, 1, 4}} {
+			var code []int64
+			for i := 0; i < depth; i++ {
+				code = append(code, 2, 1)
+			}
+			g.Count("large: nesting depth")
+			emit(st, true, (&W{}).Int(3).Int(depth%3).Raw(append(code, leaf...)))
+		}
+	}
+	for _, width := range []int{300, 2000} {
+		for _, last := range [][]int64{{0, 9}, {3}, {2, 1, 2, 1, 4}, {1, 2, 0, 10}} {
+			code := []int64{2, int64(width)}
+			for i := 0; i < width-1; i++ {
+				if i%5 == 4 {
+					code = append(code, 2, 2, 0, int64(i%13), 1, 1, int64(i))
+				} else {
+					code = append(code, 0, int64(i%11))
+				}
+			}
+			g.Count("large: nesting width")
+			emit(st, true, (&W{}).Int(3).Int(width%3).Raw(append(code, last...)))
+		}
+	}
+}
+
+// c11Extreme: none of the C11 helpers takes an int argument; the extreme stream feeds element values
+// at the 32-bit boundaries and at the ends of the range the wire can carry (63-bit words) at T=int and
+// T=string (float64 cannot represent them distinctly).
+func c11Extreme(g *Gen, emit func(string, bool, *W)) {
+	const st = "extreme"
+	vals := []int{1<<62 - 1, -(1 << 62), 1<<62 - 2, 1 << 31, 1<<31 - 1, -(1 << 31), -(1 << 31) - 1, 1<<32 - 1, 1 << 32, 1<<32 + 1,
+		-(1 << 32), -1, 0, 1}
+	pick := func(maxLen int) []int {
+		s := make([]int, g.Rng.Intn(maxLen+1))
+		for i := range s {
+			s[i] = vals[g.Rng.Intn(len(vals))]
+		}
+		return s
+	}
+	for i := 0; i < 400; i++ {
+		fn := 1 + i%10
+		ty := (i / 10) % 2
+		k := g.Rng.Intn(5)
+		if ty != 0 && k == 4 {
+			k = 3
+		}
+		s := pick(8)
+		w := (&W{}).Int(fn).Int(ty)
+		switch fn {
+		case 1, 9, 10:
+			w.Ints(s)
+		case 2:
+			w.Int(k).Ints(s)
+		case 3:
+			w.Raw((&W{}).Int(2).Int(3).Int(1).Ints(s).Int(0).Int(vals[i%len(vals)]).Int(2).Int(1).Int(1).Ints(pick(3)).Out())
+		case 4:
+			w.Intss([][]int{s, pick(8), pick(8)})
+		case 5:
+			w.Int(k).Intss([][]int{s, pick(8)})
+		case 6, 8:
+			w.Ints(s).Ints(pick(4))
+		case 7:
+			w.Int(k).Ints(s).Ints(pick(4))
+		}
+		emit(st, len(s) >= 2, w)
+	}
+}
+
 func init() {
 	register(&Prop{ID: "C11", Exec: execC11, Gen: genC11, Describe: describeC11,
-		Rule: "exhaustive (T=int): every slice over {0,1,2,3} up to length 5 (thorough 6) for Unique/UniqueBy(id,%2,const,/2)/Duplicate/DuplicateWithIndex/1-ary Intersection(By); every pair (first <= 4 (thorough 5), second <= 3 over {0,1,2,3}) for Difference/Without/DifferenceBy/2-ary Intersection(By) with keys %2,const,/2; every triple over {0,1,2} (first <= 4 (thorough 6), others <= 2) for Intersection(By); Union on every nesting of depth <= 2 over {0,1,[]T{1,0},[]T{},wrong type} and depth <= 3 over {0,[]T{1,0},wrong type} with <= 2 children per []any; malformed: no argument, nil and wrong-typed nodes; then seeded random slices up to length 16 at int/string/float64 and random nestings to depth 5. non-trivial = the first argument has >= 2 elements and (a repeated value, or — for the binary/variadic helpers — a further non-empty argument); UniqueBy: >= 2 elements; Union: nesting depth >= 2 or a wrong-typed node; distinct = distinct wire input"})
+		Rule: "exhaustive (T=int): every slice over {0,1,2,3} up to length 5 (thorough 6) for Unique/UniqueBy(id,%2,const,/2)/Duplicate/DuplicateWithIndex/1-ary Intersection(By); every pair (first <= 4 (thorough 5), second <= 3 over {0,1,2,3}) for Difference/Without/DifferenceBy/2-ary Intersection(By) with keys %2,const,/2; every triple over {0,1,2} (first <= 4 (thorough 6), others <= 2) for Intersection(By); Union on every nesting of depth <= 2 over {0,1,[]T{1,0},[]T{},wrong type} and depth <= 3 over {0,[]T{1,0},wrong type} with <= 2 children per []any; the same helpers at T=string and T=float64 on every slice / pair over {0,1,2} up to length 3; malformed: no argument, nil and wrong-typed nodes; large (both tiers): Intersection(By) of 5/33/64/65/70/130/257/300 slices where one argument (first, middle, 64th, 65th, 256th, 257th, last) lacks a value or is empty, k copies of [1] then an empty slice, Without/Difference(By) with k listed values, slices of 100/130/257/500/1023/2000 elements (few / n/2 / n distinct values) through every helper, Union on nestings of depth 40/200/1000 and width 300/2000 with the wrong-typed node at the bottom / at the end; extreme: element values at the 32-bit boundaries and at +-2^62 (T=int, string); then seeded random slices up to length 16 at int/string/float64 and random nestings to depth 5. non-trivial = the first argument has >= 2 elements and (a repeated value, or — for the binary/variadic helpers — a further non-empty argument); UniqueBy: >= 2 elements; Union: nesting depth >= 2 or a wrong-typed node; distinct = distinct wire input"})
 }
